@@ -300,7 +300,7 @@ Section Inv.
     let '(s, d, w) := e in
     match w with
     | Leave => d = s
-    | _ => fst d = fst s /\ fst (snd d) = dest /\ ino_of fs0 (snd d) = None /\
+    | _ => fst d = fst s /\ fst (snd d) = dest /\ ino_of fs0 (snd d) = None /\ ~ In (snd d) avoid0 /\
            exists i, ino_of fs0 (snd s) = Some i /\
              match w with
              | Copy => exists j, ino_of fs (snd d) = Some j /\ (forall p, ino_of fs0 p <> Some j)
@@ -336,11 +336,11 @@ Section Inv.
   Proof.
     intros X F D. destruct e as [[s d] w]. unfold entry_ok.
     destruct w; auto.
-    - intros (A & B & C & i & I & J). repeat (split; [assumption|]). exists i. split; [assumption|].
+    - intros (A & B & C & C' & i & I & J). repeat (split; [assumption|]). exists i. split; [assumption|].
       rewrite F; [assumption|]. intros E. rewrite E in J. congruence.
-    - intros (A & B & C & i & I & J). repeat (split; [assumption|]). exists i. split; [assumption|].
+    - intros (A & B & C & C' & i & I & J). repeat (split; [assumption|]). exists i. split; [assumption|].
       rewrite F; [assumption|]. intros E. rewrite E in J. congruence.
-    - intros (A & B & C & i & I & j & J1 & J2 & J3). repeat (split; [assumption|]). exists i. split; [assumption|].
+    - intros (A & B & C & C' & i & I & j & J1 & J2 & J3). repeat (split; [assumption|]). exists i. split; [assumption|].
       exists j. split; [|split; [assumption|]].
       + rewrite F; [assumption|]. intros E. rewrite E in J1. congruence.
       + rewrite D; [assumption|]. now exists (snd d).
@@ -373,6 +373,7 @@ Section Inv.
         * unfold entry_ok.
           assert (ino_of fs0 (snd f') = None) as N0.
           { destruct (ino_of fs0 (snd f')) eqn:X; [|reflexivity]. apply G1 in X. congruence. }
+          assert (~ In (snd f') avoid0) as N1 by (intros X; apply C3; now apply G7).
           destruct w; [congruence|..]; repeat (split; [assumption|]); exists i0; (split; [exact I0|]); auto.
           destruct C9 as (j & J1 & J2 & J3). exists j. split; [assumption|]. split.
           -- intros p X. apply G1 in X. eapply J2; eauto.
@@ -554,21 +555,21 @@ Section Final.
     { intros i E. unfold read. rewrite E, (G1 _ _ E). cbn. split; [reflexivity|]. f_equal. apply G2. eauto. }
     destruct w.
     - split; [exact G3|congruence].
-    - destruct G3 as (A & B & C & i & I0 & J). destruct (RS _ I0) as [R0 R1].
+    - destruct G3 as (A & B & C & C' & i & I0 & J). destruct (RS _ I0) as [R0 R1].
       assert (read fs1 (snd d) = Some (data_of fs0 i)) as RD
         by (unfold read; rewrite J; cbn; f_equal; apply G2; eauto).
       split.
       + cbn. split; [assumption|]. split; [congruence|]. intros c. unfold read. rewrite ino_write, J. cbn.
         rewrite (data_write _ _ _ i) by auto. now rewrite Nat.eqb_refl.
       + intros _. repeat split; try assumption; congruence.
-    - destruct G3 as (A & B & C & i & I0 & J). destruct (RS _ I0) as [R0 R1].
+    - destruct G3 as (A & B & C & C' & i & I0 & J). destruct (RS _ I0) as [R0 R1].
       assert (read fs1 (snd d) = Some (data_of fs0 i)) as RD
         by (unfold read; rewrite J; cbn; f_equal; apply G2; eauto).
       split.
       + cbn. split; [assumption|]. split; [congruence|]. intros c. unfold read. rewrite ino_write, J. cbn.
         rewrite (data_write _ _ _ i) by auto. now rewrite Nat.eqb_refl.
       + intros _. repeat split; try assumption; congruence.
-    - destruct G3 as (A & B & C & i & I0 & j & J1 & J2 & J3). destruct (RS _ I0) as [R0 R1].
+    - destruct G3 as (A & B & C & C' & i & I0 & j & J1 & J2 & J3). destruct (RS _ I0) as [R0 R1].
       assert (read fs1 (snd d) = Some (data_of fs0 i)) as RD
         by (unfold read; rewrite J1; cbn; now rewrite J3).
       split.
@@ -642,6 +643,60 @@ Section Final.
       f_equal. eapply entries_inj; eauto; [destruct W1|destruct W2]; subst; discriminate.
   Qed.
 
+  (* a later write by the engine to a reserved path p of the directory (free at the start, in the initial
+     clash set) creates a new file and disturbs nothing *)
+  Lemma dump_frame fs1 av H (p : path) c :
+    ginv dest fs0 avoid0 fs1 av H -> In p avoid0 -> ino_of fs0 p = None ->
+    ino_of fs1 p = None /\ forall q, q <> p -> read (dump fs1 p c) q = read fs1 q.
+  Proof.
+    intros G IN N0.
+    assert (ino_of fs1 p = None) as N1.
+    { destruct (ino_of fs1 p) eqn:X; [|reflexivity]. exfalso.
+      assert (ino_of fs1 p <> None) as X' by congruence.
+      apply (g6 _ _ _ _ _ _ G) in X'. destruct X' as [X'|X']; [congruence|].
+      unfold dsts in X'. apply in_map_iff in X'. destruct X' as ([[s d] w] & E & I).
+      apply filter_In in I. destruct I as [I NL]. pose proof (g3 _ _ _ _ _ _ G _ I) as EO.
+      unfold dpath in E. cbn in E. subst p. unfold entry_ok in EO.
+      destruct w; [discriminate NL|..]; destruct EO as (_ & _ & _ & C' & _); contradiction. }
+    split; [exact N1|]. intros q NE. unfold dump. rewrite N1. unfold read.
+    rewrite ino_add_copy. apply not_eq_sym, path_eqb_neq in NE. rewrite NE.
+    destruct (ino_of fs1 q) as [i|] eqn:I; [|reflexivity]. cbn. f_equal.
+    rewrite data_add_copy. destruct (Nat.eqb (fresh_ino fs1) i) eqn:Q; [|reflexivity].
+    apply Nat.eqb_eq in Q. subst. exfalso. eapply fresh_ino_fresh; eauto.
+  Qed.
+
+  Lemma entry_dst_not_seeded fs1 av H s d w (p : path) :
+    ginv dest fs0 avoid0 fs1 av H -> In (s, d, w) H -> In p avoid0 -> ino_of fs0 p = None ->
+    ino_of fs0 (snd s) <> None -> snd d <> p /\ snd s <> p.
+  Proof.
+    intros G I IN N0 SRC. pose proof (g3 _ _ _ _ _ _ G _ I) as EO. unfold entry_ok in EO.
+    assert (snd s <> p) as NS by (intros X; rewrite X in SRC; contradiction).
+    split; [|exact NS].
+    destruct w; [now subst|..]; destruct EO as (_ & _ & _ & C' & _); intros X; rewrite X in C'; contradiction.
+  Qed.
+
+  Theorem copyfile_then_dump fields outs fs1 av1 (p : path) c :
+    (forall v f, In v fields -> In f (leaves v) -> ino_of fs0 (snd f) <> None) ->
+    copyfile_fields copy_one tab dest fields avoid0 fs0 = Ok (outs, fs1, av1) ->
+    In p avoid0 -> ino_of fs0 p = None ->
+    forall s d, In (s, d) (all_pairs fields (map fst outs)) ->
+      snd d <> p /\ read (dump fs1 p c) (snd d) = read fs0 (snd s)
+      /\ read (dump fs1 p c) (snd s) = read fs0 (snd s).
+  Proof.
+    intros SRC E IN N0 s d I.
+    pose proof (copyfile_workflow_collected _ _ _ _ SRC E) as COL.
+    eapply (copyfile_fields_ok _ _ _ []) in E; eauto using ginv_init.
+    destruct E as (H & G & F). rewrite app_nil_r in *.
+    destruct (all_pairs_in _ _ _ _ F I) as (v & o & [(_ & _ & A & _) INC] & I2).
+    destruct (A _ _ I2) as [w Iw]. apply INC in Iw.
+    destruct (c_leaf _ _ _ _ _ _ COL _ _ I) as (_ & _ & R0 & R1 & R2 & _).
+    assert (ino_of fs0 (snd s) <> None) as SE
+      by (unfold read in R0; destruct (ino_of fs0 (snd s)); [congruence|cbn in R0; congruence]).
+    destruct (entry_dst_not_seeded _ _ _ _ _ _ _ G Iw IN N0 SE) as [ND NS].
+    destruct (dump_frame _ _ _ p c G IN N0) as [_ FR].
+    split; [exact ND|]. rewrite !FR by assumption. auto.
+  Qed.
+
   (* ------------------------------------------------------------ C34 *)
   Lemma job_fields_ok fields : forall avoid fs hprev outs fs2 av2,
     ginv dest fs0 avoid0 fs avoid hprev ->
@@ -700,6 +755,34 @@ Section Final.
       rewrite ST in P. destruct P as [(_ & _ & _ & A & B & _) _]. cbn. auto.
     - intros p I. destruct (ino_of fs0 p) as [i|] eqn:E; [|congruence].
       unfold read. rewrite E, (g1 _ _ _ _ _ _ G _ _ E). cbn. f_equal. apply (g2 _ _ _ _ _ _ G). eauto.
+  Qed.
+
+  Theorem job_inputs_then_dump fields outs fs1 av1 (p : path) c :
+    (forall fd f, In fd fields -> is_staged fd = true -> In f (leaves (fd_value fd)) ->
+                  ino_of fs0 (snd f) <> None) ->
+    job_fields copy_one tab dest fields avoid0 fs0 = Ok (outs, fs1, av1) ->
+    In p avoid0 -> ino_of fs0 p = None ->
+    ino_of fs1 p = None
+    /\ (forall q, q <> p -> read (dump fs1 p c) q = read fs1 q)
+    /\ forall fd o, In (fd, o) (combine fields outs) -> is_staged fd = true ->
+         forall s d, In (s, d) (pairs_of (fd_value fd) (fst o)) -> snd d <> p /\ snd s <> p.
+  Proof.
+    intros SRC E IN N0.
+    eapply (job_fields_ok _ _ _ []) in E; eauto using ginv_init.
+    destruct E as (H & G & F). rewrite app_nil_r in *.
+    destruct (dump_frame _ _ _ p c G IN N0) as [N1 FR].
+    split; [exact N1|]. split; [exact FR|].
+    intros fd o I ST s d I2.
+    assert (exists fd' o', fd' = fd /\ o' = o /\ In fd fields /\
+              (if is_staged fd then field_ok tab dest (fd_mode fd) mode_any (fd_value fd) (fst o) (snd o)
+                                    /\ incl (snd o) H else o = (fd_value fd, []))) as (_ & _ & _ & _ & IF & P).
+    { clear - F I. induction F as [|x y l l' Pxy F IH]; cbn in I; [tauto|].
+      destruct I as [X|X]; [inversion X; subst; exists fd, o; cbn; auto|].
+      destruct (IH X) as (a & b & ? & ? & ? & ?). exists a, b. cbn. auto. }
+    rewrite ST in P. destruct P as [(_ & _ & A & _) INC].
+    destruct (A _ _ I2) as [w Iw]. apply INC in Iw.
+    eapply entry_dst_not_seeded; eauto. eapply SRC; eauto.
+    unfold pairs_of in I2. now apply in_combine_l in I2.
   Qed.
 End Final.
 
@@ -896,6 +979,9 @@ Proof.
   apply (assoc_in _ path_eqb_spec) in A. change p with (fst (p, n)). now apply in_map.
 Qed.
 
+Lemma seed_spec fs d (p : path) : fst p = d -> ino_of fs p <> None -> In p (seed fs d).
+Proof. intros. apply in_or_app. left. now apply dir_entries_spec. Qed.
+
 Lemma c33_collected copy_one (HC : copy_contract copy_one) tab dest fs0 fields outs fs1 av :
   sources_exist fs0 fields ->
   copyfile_workflow copy_one tab dest fields fs0 = Ok (outs, fs1, av) ->
@@ -907,7 +993,7 @@ Lemma c33_total tab dest fs0 fields :
   exists r, copyfile_workflow ff_copy tab dest fields fs0 = Ok r.
 Proof.
   intros S. unfold copyfile_workflow.
-  eapply (copyfile_workflow_total tab dest fs0 (dir_entries fs0 dest) (dir_entries_spec fs0 dest) fields _ fs0 []);
+  eapply (copyfile_workflow_total tab dest fs0 (seed fs0 dest) (seed_spec fs0 dest) fields _ fs0 []);
     eauto using ginv_init.
 Qed.
 
@@ -937,9 +1023,38 @@ Lemma c34_total tab dest fs0 fields :
   exists r, job_inputs ff_copy tab dest fields fs0 = Ok r.
 Proof.
   intros S. unfold job_inputs.
-  eapply (job_fields_total tab dest fs0 (dir_entries fs0 dest) (dir_entries_spec fs0 dest) fields _ fs0 []);
+  eapply (job_fields_total tab dest fs0 (seed fs0 dest) (seed_spec fs0 dest) fields _ fs0 []);
     eauto using ginv_init.
   intros fd f I ST L. destruct (S fd f I ST L) as [A B]. split; [exact A|now apply stageable_satisfiable].
+Qed.
+
+Lemma reserved_in_seed fs dest n : In n reserved_names -> In (dest, n) (seed fs dest).
+Proof. intros I. apply in_or_app. right. apply in_map_iff. now exists n. Qed.
+
+(* what result.save writes into the directory after collection/staging (a reserved name that was free)
+   is a new file: no collected or staged file, and no source, is touched *)
+Lemma c33_save_safe copy_one (HC : copy_contract copy_one) tab dest fs0 fields outs fs1 av n c :
+  sources_exist fs0 fields ->
+  copyfile_workflow copy_one tab dest fields fs0 = Ok (outs, fs1, av) ->
+  In n reserved_names -> ino_of fs0 (dest, n) = None ->
+  forall s d, In (s, d) (all_pairs fields (map fst outs)) ->
+    snd d <> (dest, n)
+    /\ read (dump fs1 (dest, n) c) (snd d) = read fs0 (snd s)
+    /\ read (dump fs1 (dest, n) c) (snd s) = read fs0 (snd s).
+Proof.
+  unfold copyfile_workflow. intros S E I N. eapply copyfile_then_dump; eauto using reserved_in_seed.
+Qed.
+
+Lemma c34_save_safe copy_one (HC : copy_contract copy_one) tab dest fs0 fields outs fs1 av n c :
+  (forall fd f, In fd fields -> is_staged fd = true -> In f (leaves (fd_value fd)) -> ino_of fs0 (snd f) <> None) ->
+  job_inputs copy_one tab dest fields fs0 = Ok (outs, fs1, av) ->
+  In n reserved_names -> ino_of fs0 (dest, n) = None ->
+  ino_of fs1 (dest, n) = None
+  /\ (forall q, q <> (dest, n) -> read (dump fs1 (dest, n) c) q = read fs1 q)
+  /\ forall fd o, In (fd, o) (combine fields outs) -> is_staged fd = true ->
+       forall s d, In (s, d) (pairs_of (fd_value fd) (fst o)) -> snd d <> (dest, n) /\ snd s <> (dest, n).
+Proof.
+  unfold job_inputs. intros S E I N. eapply job_inputs_then_dump; eauto using reserved_in_seed.
 Qed.
 
 Definition C34_statement : Prop :=
@@ -1022,3 +1137,16 @@ Example ex_seeded :
   | Err _ => False
   end.
 Proof. vm_compute. split; reflexivity. Qed.
+
+(* an output named like the result pickle is collected under the next free name, so the pickle written
+   afterwards goes to a new file and both the collected file and the source keep their content *)
+Definition ex_fs_res : fsT := mkfs [(("/wf", "_job.pklz"), 9); (("/d1", "_result.pklz"), 1)] [(9, "ENGINE"); (1, "USERDATA")].
+Example ex_reserved :
+  match copyfile_workflow ff_copy [] "/wf" [VFile ("File", ("/d1", "_result.pklz"))] ex_fs_res with
+  | Ok (outs, fs1, _) =>
+      map fst outs = [VFile ("File", ("/wf", "_result (1).pklz"))]
+      /\ read (dump fs1 ("/wf", "_result.pklz") "PICKLE") ("/wf", "_result (1).pklz") = Some "USERDATA"
+      /\ read (dump fs1 ("/wf", "_result.pklz") "PICKLE") ("/d1", "_result.pklz") = Some "USERDATA"
+  | Err _ => False
+  end.
+Proof. vm_compute. repeat split; reflexivity. Qed.
